@@ -90,6 +90,7 @@ type ReplayEvent struct {
 	Name  string `json:"name,omitempty"`
 	Type  string `json:"type,omitempty"`
 	N     int    `json:"n,omitempty"`
+	From  int    `json:"from,omitempty"`
 	Value uint64 `json:"value"`
 	term  *Term
 }
@@ -267,11 +268,10 @@ func (i *interpreter) choose(n int, kind DecKind, name string) int {
 		ps.taken = append(ps.taken, Decision{Kind: kind, Val: 0, N: n})
 		v = 0
 	}
-	ek := "choose"
-	if kind == DSched {
-		ek = "sched"
+	if kind != DSched {
+		// scheduling decisions are recorded by the scheduler itself (who runs next)
+		ps.events = append(ps.events, ReplayEvent{Kind: "choose", Name: name, N: n, Value: uint64(v)})
 	}
-	ps.events = append(ps.events, ReplayEvent{Kind: ek, Name: name, N: n, Value: uint64(v)})
 	return v
 }
 
@@ -493,6 +493,7 @@ type Config struct {
 	BenignGlobals map[string]bool
 	Verbose       bool
 	Tier          int
+	PreemptAtSync bool // also allow voluntary switches before non-blocking mutex/channel operations
 	Fallbacks     []string
 	BuildFilter   func(path string) bool
 	ZeroFuncs     map[string]bool // functions modelled as "return the zero value" (metrics set-up etc.)
@@ -610,6 +611,7 @@ type HarnessResult struct {
 	Completed    int64
 	Infeasible   int64
 	Inconclusive []string
+	InconclusivePaths int64
 	Failures     []*Failure
 	Covers       map[string]int64
 	MustCover    []string
@@ -800,13 +802,14 @@ func (ex *Explorer) runPath(w *worker, prefix []Decision) {
 			res.Failures = append(res.Failures, f)
 		}
 	case endInconclusive:
-		msg := end.reason
+		msg := truncate(end.reason, 500)
 		found := false
 		for _, m := range res.Inconclusive {
-			if m == msg {
+			if strings.HasPrefix(m, truncate(msg, 120)) {
 				found = true
 			}
 		}
+		res.InconclusivePaths++
 		if !found && len(res.Inconclusive) < 20 {
 			res.Inconclusive = append(res.Inconclusive, msg+" [path "+truncate(ps.pathString(), 200)+"]")
 		}
@@ -829,7 +832,7 @@ func (i *interpreter) runMain(entry *ssa.Function) (end pathEnd) {
 	ps.sched = newScheduler(i)
 	done := make(chan pathEnd, 1)
 	ps.sched.done = done
-	g0 := ps.sched.newG("main")
+	g0 := ps.sched.newG("main", true)
 	ps.sched.current = g0
 	go func() {
 		var result pathEnd
